@@ -8,7 +8,7 @@ from bip_utils import (Bip38Encrypter, Bip38Decrypter, Bip38PubKeyModes, Base58E
 from bip_utils.bip.bip38 import bip38_ec
 from bip_utils.bip.bip38.bip38_ec import Bip38EcKeysGenerator
 
-LEAN_MODULES = ["BipVerif.Props.C13Wif", "BipVerif.Props.C13"]
+LEAN_MODULES = ["BipVerif.Props.C13Wif", "BipVerif.Props.C13", "BipVerif.Props.C13Group"]
 PASS = {}
 PASSPHRASES = ["TestingOneTwoThree", "Satoshi", "", "MOLON LABE", "ΜΟΛΩΝ ΛΑΒΕ", "é", "é", "Å", "Å", "\u03d2\u0301\x00\U00010400\U0001f4a9", "a\x00b", "ﬁ", "pass phrase 🙂"]
 
@@ -237,4 +237,156 @@ def relations(rng, tier, rpt):
                         "input": "passphrase=%r lot=%s seq=%s salt=%s seedb=%s" % (p, lot, seq, salt.hex(), seedb.hex()), "impl_output": str(got),
                         "model_output": str(want), "no_failing_input": False})
     rpt.extra["ec_wrapper_checks"] = nw
-    return bad[:5]
+    bad = bad[:5]
+    bad += _ec_histories_against_the_standard(rng, tier, rpt)
+    return bad[:8]
+
+
+# ---- EC-multiplied mode recomputed from the text of BIP-38 (hashlib scrypt/SHA-256, pycryptodome AES, coincurve point arithmetic): nothing of
+# ---- bip_utils is used by the reference, so it has no state that a call history could touch
+_N_SECP = 0xFFFFFFFFFFFFFFFFFFFFFFFFFFFFFFFEBAAEDCE6AF48A03BBFD25E8CD0364141
+_B58 = "123456789ABCDEFGHJKLMNPQRSTUVWXYZabcdefghijkmnopqrstuvwxyz"
+_REF_PREFACTOR = {}        # memo of the REFERENCE's own slow scrypt, keyed on its complete input (password bytes, salt)
+
+
+def _sha256d(b):
+    import hashlib
+    return hashlib.sha256(hashlib.sha256(b).digest()).digest()
+
+
+def _b58check(b):
+    b = b + _sha256d(b)[:4]
+    v, s = int.from_bytes(b, "big"), ""
+    while v:
+        v, r = divmod(v, 58)
+        s = _B58[r] + s
+    return "1" * (len(b) - len(b.lstrip(b"\x00"))) + s
+
+
+def _b58check_raw(s):
+    v = 0
+    for ch in s:
+        v = v * 58 + _B58.index(ch)
+    pad = len(s) - len(s.lstrip("1"))
+    b = bytes(pad) + (v.to_bytes((v.bit_length() + 7) // 8, "big") if v else b"")
+    assert _sha256d(b[:-4])[:4] == b[-4:]
+    return b[:-4]
+
+
+def _ref_passfactor(passphrase, owner_entropy, has_lot_seq):
+    """BIP-38: prefactor = scrypt(NFC(passphrase), ownersalt, 16384, 8, 8, 32) with ownersalt = the first 4 bytes of the owner entropy when lot and
+    sequence numbers are present and all 8 otherwise; passfactor = SHA256(SHA256(prefactor || ownerentropy)) with lot/sequence, prefactor without"""
+    import hashlib
+    pw = unicodedata.normalize("NFC", passphrase).encode("utf-8")
+    salt = owner_entropy[:4] if has_lot_seq else owner_entropy
+    if (pw, salt) not in _REF_PREFACTOR:
+        _REF_PREFACTOR[(pw, salt)] = hashlib.scrypt(pw, salt=salt, n=16384, r=8, p=8, dklen=32, maxmem=64 * 1024 * 1024)
+    pre = _REF_PREFACTOR[(pw, salt)]
+    return _sha256d(pre + owner_entropy) if has_lot_seq else pre
+
+
+def _ref_pub(scalar_bytes, compressed=True):
+    import coincurve
+    return coincurve.PrivateKey(scalar_bytes).public_key.format(compressed=compressed)
+
+
+def _ref_intermediate(passphrase, owner_entropy, has_lot_seq):
+    magic = bytes.fromhex("2ce9b3e1ff39e251" if has_lot_seq else "2ce9b3e1ff39e253")
+    return _b58check(magic + owner_entropy + _ref_pub(_ref_passfactor(passphrase, owner_entropy, has_lot_seq)))
+
+
+def _ref_ec_decrypt(enc, passphrase):
+    """(private key, compressed?) of an EC-multiplied encrypted key under the passphrase as BIP-38 defines decryption, or None when the
+    address hash embedded in the string is not the one of the resulting key"""
+    import hashlib
+    from Crypto.Cipher import AES
+    raw = _b58check_raw(enc)
+    assert len(raw) == 39 and raw[:2] == b"\x01\x43"
+    flag, ah, ent, e1a, e2 = raw[2], raw[3:7], raw[7:15], raw[15:23], raw[23:39]
+    has_lot_seq, compressed = bool(flag & 0x04), bool(flag & 0x20)
+    pf = _ref_passfactor(passphrase, ent, has_lot_seq)
+    if not 0 < int.from_bytes(pf, "big") < _N_SECP:
+        return None
+    dk = hashlib.scrypt(_ref_pub(pf), salt=ah + ent, n=1024, r=1, p=1, dklen=64)
+    dh1, aes = dk[:32], AES.new(dk[32:], AES.MODE_ECB)
+    d2 = bytes(a ^ b for a, b in zip(aes.decrypt(e2), dh1[16:]))
+    d1 = bytes(a ^ b for a, b in zip(aes.decrypt(e1a + d2[:8]), dh1[:16]))
+    key = int.from_bytes(pf, "big") * int.from_bytes(_sha256d(d1 + d2[8:]), "big") % _N_SECP
+    if key == 0:
+        return None
+    kb = key.to_bytes(32, "big")
+    h160 = hashlib.new("ripemd160", hashlib.sha256(_ref_pub(kb, compressed)).digest()).digest()
+    if _sha256d(_b58check(b"\x00" + h160).encode())[:4] != ah:
+        return None
+    return kb, compressed
+
+
+def _ec_histories_against_the_standard(rng, tier, rpt):
+    """Every answer of the EC-multiplied entry points, at any point of a call history, is the one BIP-38 defines for its arguments.
+
+    One owner (one passphrase, typed in a form that is NOT NFC-normalised: the standard normalises it) gets an intermediate code with and one
+    without lot/sequence numbers whose 8 owner-entropy bytes are the SAME, a key from each, and of each key the copy whose lot/sequence flag bit
+    alone is altered (checksum recomputed). The four strings agree on passphrase and owner entropy and differ in the field that selects the
+    scrypt salt and the extra hash, so the standard gives them four unrelated pass factors: the two genuine keys decrypt to the key recomputed
+    here and the two altered ones fail on the address hash, in whatever order they are asked and whatever was generated before. The codes are
+    asked of `Bip38EcKeysGenerator` directly (the entry point an owner uses to hand a code to a third party), the keys of `Bip38Decrypter`."""
+    bad = []
+
+    def rep(what, inp, got, want):
+        bad.append({"property": "C13", "entry_point": what, "request_lines": [], "relation": what, "input": inp,
+                    "impl_output": str(got), "model_output": str(want), "no_failing_input": False})
+
+    bases = ["cafe\u0301", "\u212b ngstro\u0308m", "\u03d2\u0301\U0001f4a9", "\u1e9b\u0323 n\u0303", "\u1100\u1161\u11a8 \u212b"]
+    n_hist = n_obs = 0
+    for rnd in range(1 if tier == "quick" else 6):
+        base = bases[rng.randrange(len(bases))] + (" %d" % rng.randrange(10) if rnd else "")
+        nfc = unicodedata.normalize("NFC", base)
+        forms = sorted({f for f in (base, unicodedata.normalize("NFD", base)) if f != nfc})
+        one = rng.choice(forms)
+        # even rounds (the quick tier's only one): one un-normalised spelling throughout; odd rounds: canonically equivalent spellings mixed
+        spell = (lambda: one) if rnd % 2 == 0 else (lambda: rng.choice(forms + [nfc]))
+        lot, seq = rng.choice([0, 1, 1048575, rng.randrange(1048576)]), rng.choice([0, 1, 4095, rng.randrange(4096)])
+        ent = bytes(rng.randrange(256) for _ in range(4)) + (lot * 4096 + seq).to_bytes(4, "big")
+        hist = []
+        codes = {}
+        order = [True, False]
+        rng.shuffle(order)
+        for has_lot in order:
+            p = spell()
+            hist.append("GenerateIntermediatePassphrase(%r, %s)" % (p, "%d, %d" % (lot, seq) if has_lot else "no lot/sequence"))
+            got = with_urandom([ent[:4] if has_lot else ent], lambda: Bip38EcKeysGenerator.GenerateIntermediatePassphrase(p, lot if has_lot else None, seq if has_lot else None))
+            want = _ref_intermediate(p, ent, has_lot)
+            n_obs += 1
+            if got != want:
+                rep("Bip38EcKeysGenerator.GenerateIntermediatePassphrase: the intermediate code is not the one BIP-38 defines for the (NFC-normalised) passphrase and owner entropy",
+                    "passphrase=%r owner_entropy=%s history=%s" % (p, ent.hex(), hist), got, want)
+            codes[has_lot] = want          # continue from the standard's code, so that one slip is reported once
+        keys = []
+        for has_lot in (False, True):
+            md = rng.choice([Bip38PubKeyModes.COMPRESSED, Bip38PubKeyModes.UNCOMPRESSED])
+            seedb = bytes(rng.randrange(256) for _ in range(24))
+            enc = with_urandom([seedb], lambda: Bip38EcKeysGenerator.GeneratePrivateKey(codes[has_lot], md))
+            raw = bytearray(_b58check_raw(enc))
+            raw[2] ^= 0x04
+            keys += [("genuine key %s lot/sequence" % ("with" if has_lot else "without"), enc), ("the same key with the lot/sequence flag bit altered", _b58check(bytes(raw)))]
+        rng.shuffle(keys)
+        if tier != "quick":
+            keys += [rng.choice(keys), rng.choice(keys)]
+        for what, enc in keys:
+            p = spell()
+            want = _ref_ec_decrypt(enc, p)
+            hist.append("DecryptEc(%s, %r)" % (enc, p))
+            n_obs += 1
+            try:
+                k, m = Bip38Decrypter.DecryptEc(enc, p)
+                got = (k, m == Bip38PubKeyModes.COMPRESSED)
+            except ValueError:
+                got = None
+            if got != want:
+                rep("Bip38Decrypter.DecryptEc (%s): the answer is not the one BIP-38 defines for this string and passphrase" % what,
+                    "history=%s" % hist, "ValueError" if got is None else "%s compressed=%s" % (got[0].hex(), got[1]),
+                    "fails: the embedded address hash does not match" if want is None else "%s compressed=%s" % (want[0].hex(), want[1]))
+        n_hist += 1
+    rpt.extra["ec_standard_histories"] = n_hist
+    rpt.extra["ec_standard_history_observations"] = n_obs
+    return bad[:4]
